@@ -60,6 +60,8 @@ def overlap_case(draw):
         if draw(st.booleans()):
             pat_idx = pat_idx[::-1]
     pos = np.array(pos)
+    # the motif is laid out along x as built, or along y / z (the coordinate axes are relabelled)
+    pos = pos[:, draw(st.sampled_from([[0, 1, 2], [1, 0, 2], [2, 1, 0], [1, 2, 0]]))]
     ppos = pos[pat_idx].copy()
     pels = [els[i] for i in pat_idx]
     # global pose, shift across a boundary, storage order
@@ -92,6 +94,8 @@ def overlap_case(draw):
             t[0] = 0.3
         cell = np.array([[cell[0, 0], 0, 0], [t[0] * cell[0, 0], cell[1, 1], 0], [t[1] * cell[0, 0], t[2] * cell[1, 1], cell[2, 2]]])
         cell = cell * max(1.0, side / geom.perp_widths(cell).min()) * (1 + 1e-9)
+        if draw(hperm.integers(0, 2)) == 0:
+            cell = cell[[1, 0, 2]]          # the same lattice with two vectors listed in the other order (left-handed)
     shift = [draw(st.floats(0, side)) for _ in range(3)]
     spos = geom.wrap(cell, pos + np.array(shift))
     frame = "standard"
